@@ -1294,13 +1294,24 @@ static int64_t btls_get_cnt(struct xcm_socket *conn_s, enum xcm_tp_cnt cnt)
     return bts->conn.cnts[cnt];
 }
 
+/* The TLS configuration of a socket may be changed only until the
+   socket has been put to use (connected, accepted or bound). */
+static bool conf_is_locked(struct xcm_socket *s)
+{
+    struct btls_socket *bts = TOBTLS(s);
+
+    if (s->type == xcm_socket_type_conn)
+	return bts->conn.state != conn_state_initialized;
+    else
+	return bts->server.created;
+}
+
 static int set_client_attr(struct xcm_socket *s, void *context,
 			   const void *value, size_t len)
 {
     struct btls_socket *bts = TOBTLS(s);
 
-    if (s->type == xcm_socket_type_conn &&
-	bts->conn.state != conn_state_initialized) {
+    if (conf_is_locked(s)) {
 	errno = EACCES;
 	return -1;
     }
@@ -1321,8 +1332,7 @@ static int set_early_bool_attr(struct xcm_socket *s, bool *attr,
 {
     struct btls_socket *bts = TOBTLS(s);
 
-    if (s->type == xcm_socket_type_conn &&
-	bts->conn.state != conn_state_initialized) {
+    if (conf_is_locked(s)) {
 	errno = EACCES;
 	return -1;
     }
@@ -1373,11 +1383,10 @@ static int set_file_attr(struct xcm_socket *s, const void *filename,
 {
     struct btls_socket *bts = TOBTLS(s);
 
-    if (s->type == xcm_socket_type_conn &&
-	    bts->conn.state != conn_state_initialized) {
-	    errno = EACCES;
-	    return -1;
-	}
+    if (conf_is_locked(s)) {
+	errno = EACCES;
+	return -1;
+    }
 
     item_deinit(target);
 
@@ -1465,11 +1474,10 @@ static int set_value_attr(struct xcm_socket *s, const void *value, size_t len,
 {
     struct btls_socket *bts = TOBTLS(s);
 
-    if (s->type == xcm_socket_type_conn &&
-	    bts->conn.state != conn_state_initialized) {
-	    errno = EACCES;
-	    return -1;
-	}
+    if (conf_is_locked(s)) {
+	errno = EACCES;
+	return -1;
+    }
 
     /* Even though the certificate, key, and trust chain socket
        attributes are of the binary type, the values are printable
@@ -1558,8 +1566,7 @@ static int set_verify_peer_name_attr(struct xcm_socket *s, void *context,
 {
     struct btls_socket *bts = TOBTLS(s);
 
-    if (s->type == xcm_socket_type_conn &&
-	bts->conn.state != conn_state_initialized) {
+    if (conf_is_locked(s)) {
 	errno = EACCES;
 	return -1;
     }
@@ -1582,8 +1589,7 @@ static int set_peer_names_attr(struct xcm_socket *s, void *context,
 {
     struct btls_socket *bts = TOBTLS(s);
 
-    if (s->type == xcm_socket_type_conn &&
-	bts->conn.state != conn_state_initialized) {
+    if (conf_is_locked(s)) {
 	errno = EACCES;
 	return -1;
     }
